@@ -451,6 +451,9 @@ class SimNode:
                     failed = [{'kind': 'branch' if got < nxt else 'temporary', 'id': f'proto.024-PtTALLiN.{eid}', 'contract': src, 'expected': str(nxt), 'found': str(got)}]
                 expect[src] = nxt + 1
             p = plan[i % len(plan)]
+            if failed is None and c.get('kind') == 'reveal' and self.accounts.get(src, {}).get('revealed'):
+                failed = [{'kind': 'branch', 'id': 'proto.024-PtTALLiN.contract.previously_revealed_key', 'contract': src}]
+                self.stats['run_operation_redundant_reveal'] += 1
             if failed:
                 res = {'status': 'failed', 'errors': failed}
                 self.stats['run_operation_counter_failed'] += 1
@@ -534,6 +537,9 @@ class SimNode:
             past = info['counters'][0] <= n_head + pending
             return rpc_error(500, 'proto.024-PtTALLiN.contract.' + ('counter_in_the_past' if past else 'counter_in_the_future'),
                              kind='branch' if past else 'temporary', expected=str(want[0]), found=str(info['counters'][0]))
+        if any(c['kind'] == 'reveal' for c in contents) and (acct or {}).get('revealed'):
+            self.stats['injection_redundant_reveal'] += 1
+            return rpc_error(500, 'proto.024-PtTALLiN.contract.previously_revealed_key', kind='branch')
         if verdict == 'fees_too_low':
             self.stats['injection_fees_too_low'] += 1
             return rpc_error(500, 'node.prevalidation.fees_too_low')
